@@ -1309,6 +1309,30 @@ func runOnLoadPlugins(
 	return loaderPluginResult{loader: config.LoaderNone}, true
 }
 
+// Resolve the symbolic links in the longest prefix of an output path that
+// exists. The file itself and some of its parent directories may not exist yet.
+func realPathOfOutputFile(fs fs.FS, absPath string) string {
+	rest := ""
+	for dir := absPath; ; {
+		if realDir, ok := fs.EvalSymlinks(dir); ok {
+			if rest == "" {
+				return realDir
+			}
+			return fs.Join(realDir, rest)
+		}
+		parent := fs.Dir(dir)
+		if parent == dir {
+			return absPath
+		}
+		if rest == "" {
+			rest = fs.Base(dir)
+		} else {
+			rest = fs.Join(fs.Base(dir), rest)
+		}
+		dir = parent
+	}
+}
+
 // Identify the path by its lowercase absolute path name with Windows-specific
 // slashes substituted for standard slashes. This should hopefully avoid path
 // issues on Windows where multiple different paths can refer to the same
@@ -3170,7 +3194,15 @@ func (b *Bundle) Compile(log logger.Log, timer *helpers.Timer, mangleCache map[s
 			}
 			for _, outputFile := range outputFiles {
 				absPathKey := canonicalFileSystemPathForWindows(outputFile.AbsPath)
-				if sourceIndex, ok := sourceAbsPaths[absPathKey]; ok {
+				sourceIndex, ok := sourceAbsPaths[absPathKey]
+				if !ok {
+					// The output directory may be reached through a symbolic link (input
+					// paths have their symbolic links resolved). Compare the real path too.
+					if realPath := realPathOfOutputFile(b.fs, outputFile.AbsPath); realPath != outputFile.AbsPath {
+						sourceIndex, ok = sourceAbsPaths[canonicalFileSystemPathForWindows(realPath)]
+					}
+				}
+				if ok {
 					hint := ""
 					switch logger.API {
 					case logger.CLIAPI:
